@@ -9,7 +9,7 @@ open BMV BMV.Bits BMV.Encode
 
 /-- opcodes whose `Simulate` (as modelled by `BMV.Isa`) has no data-dependent failure -/
 def safeOps : List String :=
-  ["nop", "rset", "inc", "dec", "clr", "add", "cpy", "j", "jz", "i2r", "i2rw", "r2o", "r2owa"]
+  ["nop", "rset", "inc", "dec", "clr", "add", "cpy", "mult", "j", "jz", "i2r", "i2rw", "r2o", "r2owa"]
 
 /-- the shape invariant of a simulator state: the program counter is inside the program (or just
     past it: halted) and every register / port vector has the architecture's size -/
@@ -99,14 +99,14 @@ theorem exec_unop (op : String) (hop : op = "inc" ∨ op = "dec" ∨ op = "clr")
   rcases hop with rfl | rfl | rfl <;>
     exact ⟨_, by simp [Isa.exec, Isa.pipeOps, hget, Isa.unop, hstd] <;> rfl, inv_setReg h hpc hB _ _⟩
 
-theorem exec_binop (op : String) (hop : op = "add" ∨ op = "cpy")
+theorem exec_binop (op : String) (hop : op = "add" ∨ op = "cpy" ∨ op = "mult")
     (h : VmInv a B s) (hpc : s.pc < plen) (hB : plen ≤ B) (hstd : Isa.stdSize a.rsize = true) :
     ∃ s', Isa.exec a plen op body s = some s' ∧ VmInv a B s' := by
   have hd : Isa.field body 0 a.r < s.regs.length := by rw [h.regs]; exact field_lt _ _ _
   have hs : Isa.field body a.r a.r < s.regs.length := by rw [h.regs]; exact field_lt _ _ _
   have hgd : s.regs[Isa.field body 0 a.r]? = some (s.regs[Isa.field body 0 a.r]) := List.getElem?_eq_getElem hd
   have hgs : s.regs[Isa.field body a.r a.r]? = some (s.regs[Isa.field body a.r a.r]) := List.getElem?_eq_getElem hs
-  rcases hop with rfl | rfl <;>
+  rcases hop with rfl | rfl | rfl <;>
     exact ⟨_, by simp [Isa.exec, Isa.pipeOps, hgd, hgs, Isa.binop, hstd] <;> rfl, inv_setReg h hpc hB _ _⟩
 
 theorem exec_j (h : VmInv a B s) (hpc : s.pc < plen) (hB : plen ≤ B) :
@@ -199,14 +199,15 @@ theorem exec_safe {a : Arch} {plen B : Nat} {w : Bits} {s : VmState} {op : Strin
   unfold disasm at hw
   simp only [hop] at hw
   simp only [safeOps, List.mem_cons, List.mem_nil_iff, or_false] at hsafe
-  rcases hsafe with rfl | rfl | rfl | rfl | rfl | rfl | rfl | rfl | rfl | rfl | rfl | rfl | rfl
+  rcases hsafe with rfl | rfl | rfl | rfl | rfl | rfl | rfl | rfl | rfl | rfl | rfl | rfl | rfl | rfl
   · exact exec_nop h hpc hB
   · exact exec_rset h hpc hB hstd
   · exact exec_unop "inc" (Or.inl rfl) h hpc hB hstd
   · exact exec_unop "dec" (Or.inr (Or.inl rfl)) h hpc hB hstd
   · exact exec_unop "clr" (Or.inr (Or.inr rfl)) h hpc hB hstd
   · exact exec_binop "add" (Or.inl rfl) h hpc hB hstd
-  · exact exec_binop "cpy" (Or.inr rfl) h hpc hB hstd
+  · exact exec_binop "cpy" (Or.inr (Or.inl rfl)) h hpc hB hstd
+  · exact exec_binop "mult" (Or.inr (Or.inr rfl)) h hpc hB hstd
   · exact exec_j h hpc hB
   · exact exec_jz h hpc hB hstd (hjz rfl)
   · have hl : layout "i2r" = some [.reg, .inp] := by decide
